@@ -7,7 +7,11 @@ tree (lr_complete), no non-sentence accepted (lr_rejects_nonsentences).
 Tie: (1) construction — the implementation's own item sets, edges and
 table cells for every generated grammar are run through the extracted
 validators; (2) run time — the extracted interpreter `run` and the real parser
-are executed on the same table dump and token lists and must agree.
+are executed on the same table dump and token lists and must agree;
+(3) construction, end to end (checks/c01_pipe.py) — the extracted composition
+`from_yacc_mirror` of the mirrors of pager_stategraph and StateTable::new, about
+which the theorems C01_construction_* are proved for all grammars, replays the
+implementation's run and must rebuild its StateTable cell by cell.
 Failing-input search: an independent Earley recogniser and a parse-tree
 validity check decide every generated input directly.
 """
@@ -150,6 +154,16 @@ def run(ctx):
     # closed s and goto(closed s, X) within core(target) for every state/edge of every grammar
     from checks import c01_close
     c01_close.run_part(ctx, results)
+    # tie of the END-TO-END construction theorems (theories/C01/Pipeline*.v): the composition of the mirrors of
+    # pager_stategraph and StateTable::new, replaying the implementation's run, must rebuild the implementation's
+    # table cell by cell — conflicted grammars and grammars with precedence declarations included
+    from checks import c01_pipe
+    extras = []
+    while len(extras) < ctx.n(40, 300):
+        eg = G.expr_grammar(ctx.rng)
+        if eg is not None:
+            extras.append(eg.render())
+    c01_pipe.run_part(ctx, results, ctx.n(80, 600), extras)
     ctx.coverage["rule"] = ("grammar families: random, reduced random, nullable-heavy, expression grammars with/without precedence, "
                             "LR(1)-not-LALR templates, classic corpus; inputs = sentences by random derivation, 1-3 token edits of them, "
                             "random strings, the empty input; non-trivial = automaton with >= 4 states and both an accepted and a rejected "
